@@ -493,6 +493,10 @@ func (p *Prog) segClass(v ssa.Value, isPath func(ssa.Value) bool, depth int) str
 			return ""
 		}
 		if g := staticCallee(&x.Call); g != nil && p.InModule(g) && !p.Exported(g) && len(g.Blocks) > 0 && depth < 3 {
+			return p.segClassOfResult(x, 0, isPath, depth)
+		}
+		if false {
+			g := staticCallee(&x.Call)
 			// bind: which parameters are the path
 			var bound []*ssa.Parameter
 			for i, a := range x.Call.Args {
@@ -533,6 +537,12 @@ func (p *Prog) segClass(v ssa.Value, isPath func(ssa.Value) bool, depth int) str
 			})
 			if ok {
 				return cls
+			}
+		}
+	case *ssa.Extract:
+		if c, ok := x.Tuple.(*ssa.Call); ok {
+			if g := staticCallee(&c.Call); g != nil && p.InModule(g) && !p.Exported(g) && len(g.Blocks) > 0 && depth < 3 {
+				return p.segClassOfResult(c, x.Index, isPath, depth)
 			}
 		}
 	case *ssa.Const:
@@ -3856,8 +3866,62 @@ func ruleRootOwnKey(p *Prog, r *Report) {
 					}
 				}
 				listOK := false
+				// isListGuard: the guard is a successful []interface{} test of the member value
+				isListGuard := func(g guard) bool {
+					ng := normGuard(g)
+					ex, ok := ng.Cond.(*ssa.Extract)
+					if !ok || ex.Index != 1 || !ng.Pol {
+						return false
+					}
+					ta, ok := ex.Tuple.(*ssa.TypeAssert)
+					if !ok || !isMember(ta.X) {
+						return false
+					}
+					sl, ok := ta.AssertedType.Underlying().(*types.Slice)
+					return ok && types.IsInterface(sl.Elem())
+				}
+				// a boolean flag decided earlier (keyIsRoot := true; … = false under the list test): every edge that can deliver the
+				// tested polarity comes from a block dominated by the list test
+				var flagImplies func(ph *ssa.Phi, pol bool, seen map[*ssa.Phi]bool) bool
+				flagImplies = func(ph *ssa.Phi, pol bool, seen map[*ssa.Phi]bool) bool {
+					if seen[ph] {
+						return true
+					}
+					seen[ph] = true
+					some := false
+					for i, e := range ph.Edges {
+						if bv, isC := constBool(e); isC {
+							if bv != pol {
+								continue
+							}
+							okEdge := false
+							for _, g := range expandAndGuards(dominatingGuards(ph.Block().Preds[i])) {
+								if isListGuard(g) {
+									okEdge = true
+								}
+							}
+							if !okEdge {
+								return false
+							}
+							some = true
+							continue
+						}
+						q, isPhi := e.(*ssa.Phi)
+						if !isPhi || !flagImplies(q, pol, seen) {
+							return false
+						}
+						some = true
+					}
+					return some
+				}
 				for _, g := range expandAndGuards(gs) {
 					ng := normGuard(g)
+					if ph, ok := ng.Cond.(*ssa.Phi); ok && isBoolType(ph.Type()) {
+						if flagImplies(ph, ng.Pol, map[*ssa.Phi]bool{}) {
+							listOK = true
+						}
+						continue
+					}
 					if c, ok := ng.Cond.(*ssa.Call); ok {
 						// a predicate of the member value: true only for lists?
 						if h := staticCallee(&c.Call); h != nil && p.InModule(h) && len(h.Blocks) > 0 {
@@ -3950,4 +4014,89 @@ func isSegListType(t types.Type) bool {
 	}
 	_, isStruct := et.(*types.Struct)
 	return isStruct
+}
+
+// segClassOfResult: the class of result idx of an unexported helper that is handed the path. Every return contributes the class
+// of what it returns; "" (empty string) results are ignored, and the path itself counts as its own first / last segment where
+// the return is guarded by a failed search for a separator.
+func (p *Prog) segClassOfResult(c *ssa.Call, idx int, isPath func(ssa.Value) bool, depth int) string {
+	g := staticCallee(&c.Call)
+	var bound []*ssa.Parameter
+	for i, a := range c.Call.Args {
+		if i < len(g.Params) && isPath(a) {
+			bound = append(bound, g.Params[i])
+		}
+	}
+	if len(bound) == 0 {
+		return ""
+	}
+	inner := func(w ssa.Value) bool {
+		for _, b := range bound {
+			if w == ssa.Value(b) {
+				return true
+			}
+		}
+		return false
+	}
+	noSepGuard := func(b *ssa.BasicBlock) bool {
+		for _, gd := range dominatingGuards(b) {
+			ng := normGuard(gd)
+			bo, ok := ng.Cond.(*ssa.BinOp)
+			if !ok {
+				continue
+			}
+			ic, ok := bo.X.(*ssa.Call)
+			if !ok || !isCallTo(&ic.Call, "strings.LastIndex", "strings.LastIndexByte", "strings.Index", "strings.IndexByte") || !inner(ic.Call.Args[0]) {
+				continue
+			}
+			k, isK := constInt(bo.Y)
+			if !isK {
+				continue
+			}
+			switch {
+			case bo.Op == token.LSS && k == 0 && ng.Pol, bo.Op == token.GEQ && k == 0 && !ng.Pol,
+				bo.Op == token.EQL && k == -1 && ng.Pol, bo.Op == token.NEQ && k == -1 && !ng.Pol,
+				bo.Op == token.GTR && k == -1 && !ng.Pol, bo.Op == token.LEQ && k == -1 && ng.Pol:
+				return true
+			}
+		}
+		return false
+	}
+	cls, ok, whole := "", true, false
+	eachInstr(g, func(b *ssa.BasicBlock, in ssa.Instruction) {
+		ret, isR := in.(*ssa.Return)
+		if !isR || idx >= len(ret.Results) {
+			return
+		}
+		cc := p.segClass(ret.Results[idx], inner, depth+1)
+		if cc == "empty" {
+			return
+		}
+		if cc == "path" && noSepGuard(b) {
+			whole = true
+			return
+		}
+		if cls == "" {
+			cls = cc
+		} else if cls != cc {
+			ok = false
+		}
+		if cc == "" {
+			ok = false
+		}
+	})
+	if !ok {
+		return ""
+	}
+	if whole {
+		switch cls {
+		case "last", "first":
+			return cls
+		case "":
+			return "path"
+		default:
+			return ""
+		}
+	}
+	return cls
 }
